@@ -3,6 +3,18 @@
 import json, re
 V = "/verif"
 NOTES = {
+ "g01A": "missed first (inverted delegation window signed by the genuine key): Client.tla lets the genuine key certify any window; inverted_lo / inverted_hi classes",
+ "g03A": "missed first (local-time output in a non-UTC zone): client runs rotate UTC / TZ=EST5 / a DST zone without -z",
+ "g03B": "missed first (reply from another address than the request's destination): server addressed as 127.0.0.2, wildcard-bound responder",
+ "g06A": "missed first (count 19..1024 with well-formed offsets): many-field family in the wire recorder",
+ "g06B": "missed first (nesting >= 9 levels): nested CERT/DELE/SREP 1..40 levels in the wire recorder",
+ "g10B": "judged under C16 (the file loader turns an integer-typed seed into another seed); caught after the integer-typed seed kinds were added",
+ "g13A": "missed first (capacity > 4096 then 24 small messages): history signers",
+ "g13B": "missed first (verify_strict): small-order key / R edge cases compared with a direct verification",
+ "g14A": "missed first (over-long key with the right prefix): longkey / shortkey provider faults in Envelope.tla",
+ "g16B": "missed first (short digit-only seed zero-padded): integer-typed seed kinds in Config.tla",
+ "g18B": "missed first (>= 33 requests of one protocol in one batch of the real binary): stalled bursts (SIGSTOP / SIGCONT)",
+ "g20B": "missed first (stale buffer, key order): verbatim YAML files with key orders and empty values, banner values scanned",
  "f12B": "missed first (draft-13 bytes across two neighbouring unknown version numbers): adversarial version numbers in MC_Request (second configuration) and in the mutants",
  "f17A": "missed first (send failure in the middle of a batch): requests from an unroutable source (raw socket, source port 0), ServerAbs accounts failed sends",
  "f17B": "missed first (IPv4-mapped IPv6 keys): the abstract addresses of Stats.tla are concretised as IPv4 / mapped / IPv6 in turn",
